@@ -11,11 +11,31 @@ def repo_hook_commits():
 
 # id -> (level, technique, level text, level note, design ref) ; None = not yet claimed
 CHECKS = {
+ "C06": ("exploration",
+         "invariant recomputation from raw market state after every message and tick + withdrawal oracle, over generated market histories on the real market/miner/power actors",
+         "After every message and every cron tick the locked table is recomputed from the proposals/deal-state arrays (obligation formulas written in the harness) and compared per party and in total; every withdrawal's amount, recipient and caller are judged; rejected withdrawals must change nothing. Held on the histories explored.",
+         "Trusted: MVM semantics; activation/termination notices are injected from the miner actors' addresses; obligations formula is my reading of the statement (client: collateral + price x unpaid epochs; provider: collateral).",
+         "DESIGN.md 3/C06"),
+ "C07": ("exploration",
+         "differential/metamorphic runs of one world prefix under many settlement schedules + per-message payment accounting against balance deltas + closed form",
+         "The same snapshot is continued under 5-10 schedules (cron only, single late settlement, many partial settlements at boundary epochs, with a fixed termination plan); final escrow balances and burn must coincide and equal price x (min(end,termination)-start). In random histories every escrow delta must equal price x cursor movement, cursors never go back, and each deal's validated payments equal the closed form when it leaves. Held on what was explored.",
+         "Trusted: MVM semantics; idle epochs are skipped, every epoch with scheduled work is ticked; deals longer than the 180-day minimum + 100 days are sampled rarely.",
+         "DESIGN.md 3/C07"),
+ "C08": ("exploration",
+         "history + reference registry (deal ids, pending proposals, activations) over generated publish/activate/settle/terminate histories",
+         "A registry built from the harness's own submissions and the observed returns decides: ids strictly increasing and unique, no proposal accepted again while its earlier deal is outstanding, acceptance only if authenticated / own provider / funded / not started, each id activated at most once, by its provider, no later than start, in a sector that outlives it, unactivated deals removed at/after start with collateral burnt. Held on what was explored.",
+         "Trusted: MVM semantics; harness signature scheme; activations are injected from miner addresses (real miner path exercised in the miner checks).",
+         "DESIGN.md 3/C08"),
  "C12": ("exploration",
          "online trace monitor + reference model (multisig) over generated propose/approve/cancel/reconfigure histories incl. re-entrant self-calls",
          "Every send leaving a wallet is judged, in execution order inside the invocation tree, against a model built only from observed successful calls (quorum of distinct current signers for exactly that tx, executed once, lock-up respected with an independent vesting computation); signers/threshold/lock/pending state is compared with the model after every message. Held on the histories explored; not a proof.",
          "Trusted: MVM nested-send/rollback semantics; the model mirrors two code behaviours the statement allows (Approve executes an already-met lowered threshold; a tx whose approvals are all purged disappears).",
          "DESIGN.md 3/C12"),
+ "C20": ("exploration",
+         "registry monitor over init map / next_id / (id -> code) and all creation calls in traces; contract addresses recomputed with own Keccak-256 + RLP",
+         "After every message: ids fresh and never reused, address map only grows, code at an id changes only placeholder -> EVM/EthAccount, permitted (creator, code) pairs only, CREATE/CREATE2/CreateExternal addresses equal the Ethereum formulas, no deployment over a live actor, reserved ranges never assigned, nonce delta == create attempts that passed the endowment check. Held on the histories explored.",
+         "Trusted: MVM creation/placeholder semantics; own Keccak/RLP; the reserved-range rejection itself cannot be exercised (needs a hash preimage) and is monitored passively.",
+         "DESIGN.md 3/C20"),
  "C16": ("exploration",
          "history + executable reference model (payment channel) over generated voucher/settle/collect histories on the real actor",
          "Every generated history is executed on the real paych actor inside the monitoring VM; after every call the observed acceptance, to_send, lanes, settle heights, payouts and actor deletion are compared with a literal reference channel. Held on the histories explored; not a proof.",
